@@ -4,9 +4,20 @@ import (
 	_ "github.com/consensys/gnark-crypto/ecc/bls12-377/fr/mimc"
 	_ "github.com/consensys/gnark-crypto/ecc/bls12-377/fr/poseidon2"
 	_ "github.com/consensys/gnark-crypto/ecc/bls12-381/fr/mimc"
+	_ "github.com/consensys/gnark-crypto/ecc/bls12-381/fr/poseidon2"
 	_ "github.com/consensys/gnark-crypto/ecc/bls24-315/fr/mimc"
+	_ "github.com/consensys/gnark-crypto/ecc/bls24-315/fr/poseidon2"
 	_ "github.com/consensys/gnark-crypto/ecc/bls24-317/fr/mimc"
+	_ "github.com/consensys/gnark-crypto/ecc/bls24-317/fr/poseidon2"
 	_ "github.com/consensys/gnark-crypto/ecc/bn254/fr/mimc"
+	_ "github.com/consensys/gnark-crypto/ecc/bn254/fr/poseidon2"
 	_ "github.com/consensys/gnark-crypto/ecc/bw6-633/fr/mimc"
+	_ "github.com/consensys/gnark-crypto/ecc/bw6-633/fr/poseidon2"
 	_ "github.com/consensys/gnark-crypto/ecc/bw6-761/fr/mimc"
+	_ "github.com/consensys/gnark-crypto/ecc/bw6-761/fr/poseidon2"
+	_ "github.com/consensys/gnark-crypto/ecc/grumpkin/fr/mimc"
+	_ "github.com/consensys/gnark-crypto/ecc/grumpkin/fr/poseidon2"
+	_ "github.com/consensys/gnark-crypto/field/babybear/poseidon2"
+	_ "github.com/consensys/gnark-crypto/field/goldilocks/poseidon2"
+	_ "github.com/consensys/gnark-crypto/field/koalabear/poseidon2"
 )
